@@ -10,7 +10,9 @@ import (
 	"golang.org/x/tools/go/ssa"
 )
 
-func init() { register("C10", "slices, maps, strings and struct fields behave like their Go models", checkC10) }
+func init() {
+	register("C10", "slices, maps, strings and struct fields behave like their Go models", checkC10)
+}
 
 // storeSink: one place where package vm hands a value to reflect for storing into a typed container.
 type storeSink struct {
@@ -25,7 +27,8 @@ type storeSink struct {
 func checkC10(p *Program, r *Report) {
 	r.Explain("C10: agreement with a Go model for all index values is value-level and not decided. Decided are structural necessary conditions: " +
 		"R1 typed stores convert first: at every place where package vm stores into a typed container through reflect (Value.Set, SetMapIndex key and value, reflect.Append/AppendSlice, the Send of a select case) the stored value's type term equals (or is assignable to) the type term the sink requires. " +
-		"R2 keys are hashable before use. R3 failure leaves the container unchanged. R4 reads and writes address the same element. R5 missing key reads nil, unknown field is an error.")
+		"R2 keys are hashable before use. R3 failure leaves the container unchanged. R4 reads and writes address the same element. R5 missing key reads nil, unknown field is an error. " +
+		"R6 a container that had to be replaced (append at len, nil map, rebuilt string) is assigned back to the node's own container operand: at every call of the assignment dispatcher in the element/member write handlers the expression cell holds exactly that operand.")
 	m, err := buildVMModel(p)
 	if err != nil {
 		r.Undecided("C10.R1", "model", "vm", err.Error())
@@ -47,6 +50,7 @@ func checkC10(p *Program, r *Report) {
 	c10Hashable(p, r, m, sums)
 	c10Unchanged(p, r, m, sums)
 	c10Missing(p, r, m)
+	c10WriteBack(p, r, m, sums)
 }
 
 func c10Sinks(p *Program, r *Report, m *vmModel, sums *typeSummaries) {
@@ -851,4 +855,37 @@ func storedJustBefore(tt *typeTerms, read *ssa.Call, key ssa.Value) bool {
 		}
 	}
 	return false
+}
+
+// c10WriteBack (R6): when an element write replaces the container (append, fresh map, rebuilt string), the new container is
+// assigned to the container operand of the node.
+func c10WriteBack(p *Program, r *Report, m *vmModel, sums *typeSummaries) {
+	va := buildEvalAnalysis(m)
+	a := newAddrAnalysis(m, va, sums)
+	set := c10HandlerSet(m, a, "ItemExpr", "SliceExpr", "MemberExpr")
+	container := map[string]string{"ItemExpr": "Item", "SliceExpr": "Item", "MemberExpr": "Expr"}
+	var fns []*ssa.Function
+	for fn, what := range set {
+		if strings.HasPrefix(what, "let") {
+			fns = append(fns, fn)
+		}
+	}
+	sort.Slice(fns, func(i, j int) bool { return funcName(fns[i]) < funcName(fns[j]) })
+	n := 0
+	for _, fn := range fns {
+		kind := strings.TrimPrefix(set[fn], "let ")
+		k := 0
+		for _, e := range va.events[fn] {
+			if e.role != "let" {
+				continue
+			}
+			n++
+			k++
+			want := "node." + container[kind]
+			good := len(e.operands) == 1 && e.operands[0] == want
+			r.Check(good, "C10.R6", fmt.Sprintf("%s|write-back #%d", funcName(fn), k), p.Pos(e.call.Pos()), "assigned to "+want,
+				fmt.Sprintf("the replaced container is assigned to %v, not to the node's container operand %s (after evaluating a nested operand the expression cell no longer holds it): the new container is lost or lands in another variable", e.operands, want))
+		}
+	}
+	r.Floor("C10.R6", n, 4)
 }
